@@ -423,3 +423,210 @@ Proof.
   destruct (decode_of_a o md g rd fuel _ Hf Ha) as (res & Hres & E1 & E2 & E3 & E4 & _). cbn in E1, E2, E3, E4.
   exists res, e. repeat split; try assumption. - apply Heof; assumption. - apply Heof; assumption.
 Qed.
+
+(* ================================================================ F. DecodeHeaderAndFileID: the threshold *)
+(* if the file_id-only decode succeeds on bs there is a number of bytes it needs -- the header and what the file_id
+   prologue consumed -- such that every shorter prefix is an error and every input agreeing on that many bytes
+   succeeds with the same header, File and accumulator state *)
+Theorem fileid_threshold o g bs t a : decode_a o MFileIdOnly g bs t = TDone a -> ar_err a = None ->
+  exists need, (need <= List.length bs)%nat /\
+    (forall k t', (k < need)%nat ->
+       exists a' e, decode_a o MFileIdOnly g (firstn k bs) t' = TDone a' /\ ar_err a' = Some e) /\
+    (forall data' t', firstn need data' = firstn need bs -> (need <= List.length data')%nat ->
+       exists a', decode_a o MFileIdOnly g data' t' = TDone a' /\ ar_err a' = None /\ ar_hdr a' = ar_hdr a /\
+                  ar_file a' = ar_file a /\ ar_g a' = ar_g a).
+Proof.
+  unfold decode_a. destruct (hdr_a bs t) as [[[e h] crc] used] eqn:Eh.
+  destruct (hdr_a_used _ _ _ _ _ _ Eh) as (U1 & U2 & U3).
+  destruct e as [e|]; [intros H; inversion H; subst; discriminate|].
+  set (limit := N.to_nat (h_dsize h)). set (rest := skipn used bs).
+  pose proof (run_a_prefix (data_prog o true (S limit)) rest t 0 limit (init_dstate (new_file h) g)) as HP.
+  pose proof (run_a_ext_ok (data_prog o true (S limit)) rest t 0 limit (init_dstate (new_file h) g)) as HX.
+  destruct (run_a (data_prog o true (S limit)) (mk_ast rest t 0 limit) (init_dstate (new_file h) g)) as [y x s|e' x s|e' x s|w|] eqn:Efull;
+    try discriminate; try (intros H; inversion H; subst; discriminate).
+  cbv iota. intros H _. inversion H; subst a; clear H. fields.
+  destruct HP as (P1 & P2 & P3 & P4 & P5 & P6). rewrite Nat.sub_0_r in *.
+  assert (Hrest : List.length rest = (List.length bs - used)%nat) by (unfold rest; apply skipn_length).
+  exists (used + a_n x)%nat. split; [lia|]. split.
+  - intros k t' Hk. destruct (Nat.lt_ge_cases k used) as [Hlt|Hge].
+    + destruct (hdr_a_cut _ _ _ _ _ Eh k t' Hlt) as (e1 & h1 & c1 & u1 & E1 & _). rewrite E1.
+      eexists. exists e1. split; reflexivity.
+    + assert (Hh : hdr_a (firstn k bs) t' = (None, h, crc, used)).
+      { apply (hdr_a_ext bs t); [exact Eh| |rewrite firstn_length; lia]. rewrite firstn_firstn, Nat.min_l by lia. reflexivity. }
+      rewrite Hh, skipn_firstn_comm. fold limit. fold rest.
+      pose proof (run_a_cut (data_prog o true (S limit)) rest t 0 limit (init_dstate (new_file h) g) (k - used) t') as HC.
+      pose proof (run_a_prefix (data_prog o true (S limit)) (firstn (k - used) rest) t' 0 limit (init_dstate (new_file h) g)) as HP'.
+      rewrite Efull in HC.
+      destruct (run_a (data_prog o true (S limit)) (mk_ast (firstn (k - used) rest) t' 0 limit) (init_dstate (new_file h) g))
+        as [y' x' s'|e' x' s'|e' x' s'|w'|].
+      * exfalso. destruct HC as (x0 & HC & Hn). inversion HC; subst. destruct HP' as (_ & Q2 & _).
+        rewrite Nat.sub_0_r, firstn_length in Q2. lia.
+      * destruct HC as (x0 & HC & _). discriminate.
+      * eexists. exists (EIO e'). split; reflexivity.
+      * discriminate.
+      * contradiction.
+  - intros data' t' Hf Hl.
+    assert (Hh : hdr_a data' t' = (None, h, crc, used)).
+    { apply (hdr_a_ext bs t); [exact Eh| |lia]. apply (firstn_eq_le _ _ (used + a_n x)); [exact Hf|lia]. }
+    rewrite Hh. fold limit.
+    destruct (firstn_eq_split bs data' used (a_n x)) as [F1 F2]; [exact Hf|lia|lia|].
+    rewrite (HX y x s eq_refl (skipn used data') t'); rewrite ?Nat.sub_0_r; [|exact F2|rewrite skipn_length; lia].
+    cbv iota. eexists. split; [reflexivity|]. fields. repeat split.
+Qed.
+
+(* ================================================================ G. file_id agreement (C10) *)
+Lemma slot0_is_file_id :
+  forallb (fun ft => match nth_error (slots_of ft) 0 with
+                     | Some (_, false, held) => held =? c_MesgNumFileId
+                     | _ => false
+                     end) valid_file_types = true.
+Proof. vm_compute. reflexivity. Qed.
+
+Definition no_file_id (ms : list msg) : bool := forallb (fun m => negb (m_num m =? c_MesgNumFileId)) ms.
+
+(* adding messages other than file_id to an initialised File leaves the FileId slot alone *)
+Lemma adds_slot0 ft : In ft valid_file_types -> forall ms f0 g0 f g,
+  f_inited f0 = Some ft -> adds f0 g0 ms = AddOk f g -> no_file_id ms = true ->
+  nth 0 (f_slots f) [] = nth 0 (f_slots f0) [].
+Proof.
+  intros Hft. pose proof slot0_is_file_id as H0. rewrite forallb_forall in H0. specialize (H0 ft Hft).
+  induction ms as [|m r IH]; intros f0 g0 f g Hi Ha Hn; cbn [adds] in Ha; [inversion Ha; reflexivity|].
+  cbn [no_file_id forallb] in Hn. apply andb_prop in Hn. destruct Hn as [Hm Hn]. apply negb_true_iff, N.eqb_neq in Hm.
+  rewrite (file_add_inited ft f0 g0 m Hft Hi) in Ha.
+  destruct (find_slot ft (m_num m)) as [[i multi]|] eqn:Es.
+  - destruct (stored ft g0 m) as [[m' g1]|]; [|discriminate].
+    rewrite (IH _ _ _ _ (Hi : f_inited (with_slots f0 _) = Some ft) Ha Hn). cbn [with_slots f_slots].
+    apply nth_set_nth_neq. intros ->.
+    apply (proj1 (find_slot_iff ft (m_num m) 0 multi Hft)) in Es. destruct Es as [name Hs]. rewrite Hs in H0.
+    destruct multi; [discriminate|]. apply N.eqb_eq in H0. congruence.
+  - rewrite (IH _ _ _ _ (Hi : f_inited (with_slots f0 _) = Some ft) Ha Hn). reflexivity.
+Qed.
+
+Lemma file_init_slot0 f f' : file_init f = Some f' -> nth 0 (f_slots f') [] = nth 0 (f_slots f) [].
+Proof.
+  unfold file_init. destruct (ft_entry (file_type f)) as [[[[|] cn] sl]|]; try discriminate.
+  intros H; inversion H; subst f'. cbn [f_slots]. destruct (f_slots f) as [|a l].
+  - cbn [firstn app]. unfold NCOMMON. cbn [firstn app]. destruct (List.length sl - 5)%nat; reflexivity.
+  - unfold NCOMMON. cbn [firstn app nth]. reflexivity.
+Qed.
+
+(* the first two records of a stream the reference semantics accepts *)
+Lemma split_prologue l be fds (devflag : bool) (devs : list (N * N * N)) pay dev rest ss1 :
+  let r1 := RDef l be c_MesgNumFileId fds devflag devs in
+  let r2 := RData l pay dev in
+  denote (r1 :: r2 :: rest) = Some ss1 ->
+  exists ssb ms, denote_from ss_init [r1; r2] = Some ssb /\ denote_from ssb rest = Some ss1 /\
+                 ss_msgs ss1 = ss_msgs ssb ++ ms /\ hd dummy_msg (ss_msgs ss1) = hd dummy_msg (ss_msgs ssb).
+Proof.
+  intros r1 r2 Hden. unfold denote in Hden.
+  change (r1 :: r2 :: rest) with ([r1; r2] ++ rest) in Hden.
+  rewrite denote_from_app in Hden. destruct (denote_from ss_init [r1; r2]) as [ssb|] eqn:Eb; [|discriminate].
+  destruct (denote_from_msgs _ _ _ Hden) as [ms Hms]. exists ssb, ms. split; [reflexivity|]. split; [exact Hden|]. split; [exact Hms|].
+  rewrite Hms. cbn [denote_from] in Eb.
+  destruct (denote_record ss_init r1) as [ssa|] eqn:E1; [|discriminate].
+  destruct (denote_record ssa r2) as [ssb'|] eqn:E2; [|discriminate]. inversion Eb; subst ssb'.
+  destruct (ss_msgs ssb) as [|x0 xs] eqn:Em; [|reflexivity]. exfalso.
+  unfold r1 in E1. cbn [denote_record] in E1. destruct (_ || _) in E1; [discriminate|]. inversion E1; subst ssa.
+  unfold r2 in E2. cbn [denote_record] in E2. unfold denote_data in E2. cbn [ss_env] in E2.
+  rewrite lookup_def_cons, N.eqb_refl in E2. destruct (_ || _) in E2; [discriminate|].
+  cbn [sd_gmn] in E2. rewrite known_fileid in E2.
+  destruct (mesg_all_invalid c_MesgNumFileId); [|discriminate].
+  destruct (denote_fields _ _ _ _ _ _ _) as [[m2 ref2] unl]. inversion E2; subst ssb. cbn [ss_msgs ss_init app] in Em. discriminate.
+Qed.
+
+(* DecodeHeaderAndFileID on a complete file of the domain of Decode_denote (followed by anything): success, the
+   header of the file, and a File whose FileId slot is the FileId slot of the File the reference semantics starts
+   from (File.add of the file_id message, then File.init) *)
+Lemma fileid_only_ok o h g rs ss1 f2 g1 tl t :
+  header_wf h -> h_dsize h = N.of_nat (List.length (ser_records rs)) ->
+  starts_with_file_id rs = true -> stream_wf rs = true -> denote rs = Some ss1 ->
+  start_file h g (hd dummy_msg (ss_msgs ss1)) = Some (f2, g1) ->
+  no_file_id (List.tl (ss_msgs ss1)) = true ->
+  exists a fF, decode_a o MFileIdOnly g (hdr_bytes h ++ ser_records rs ++ tl) t = TDone a /\ ar_err a = None /\
+               ar_hdr a = h /\ ar_file a = Some fF /\ nth 0 (f_slots fF) [] = nth 0 (f_slots f2) [] /\
+               f_header fF = h.
+Proof.
+  intros Hwfh Hsz Hshape Hwf Hden Hstart Hno.
+  destruct rs as [|[l be gmn fds devflag devs| |] [|[| l' pay dev |] rest]]; try discriminate.
+  cbn [starts_with_file_id] in Hshape. apply andb_prop in Hshape. destruct Hshape as [Eg El].
+  apply N.eqb_eq in Eg, El. subst gmn l'.
+  set (r1 := RDef l be c_MesgNumFileId fds devflag devs) in *. set (r2 := RData l pay dev) in *.
+  destruct (split_prologue l be fds devflag devs pay dev rest ss1 Hden) as (ssb & ms & Eb & Hrest & Hms & Hhd).
+  fold r1 r2 in Eb. rewrite Hhd in Hstart.
+  cbn [stream_wf forallb] in Hwf. apply andb_prop in Hwf. destruct Hwf as [Hwf1 Hwf]. apply andb_prop in Hwf. destruct Hwf as [Hwf2 Hwf].
+  assert (HL : N.to_nat (h_dsize h) = List.length (ser_records (r1 :: r2 :: rest))) by (rewrite Hsz; apply Nat2N.id).
+  change (ser_records (r1 :: r2 :: rest)) with (ser_record r1 ++ ser_record r2 ++ ser_records rest) in *.
+  rewrite !app_length in HL.
+  destruct (pfid_full o h g l be fds devflag devs pay dev ssb f2 g1 (ser_records rest ++ tl) t (N.to_nat (h_dsize h))
+              Hwf1 Hwf2 Eb Hstart ltac:(fold r1 r2; lia)) as (s1 & f & ft & Hrun & Hinit & HI).
+  fold r1 r2 in Hrun.
+  destruct (inv_msgs _ _ _ _ _ _ _ HI) as (ms0 & Hms0 & Hadds). cbn [with_file ds_file ds_g] in Hadds.
+  (* the FileId slot *)
+  assert (Hslot : nth 0 (f_slots (ds_file s1)) [] = nth 0 (f_slots f2) []).
+  { rewrite <- (file_init_slot0 _ _ Hinit).
+    unfold start_file in Hstart. destruct (file_add (new_file h) g (hd dummy_msg (ss_msgs ssb))) as [fa ga|]; [|discriminate].
+    destruct (file_init fa) as [fb|] eqn:Ei; [|discriminate]. injection Hstart as <- <-.
+    destruct (file_init_valid _ _ Ei) as [Hft Hin].
+    apply (adds_slot0 _ Hft ms0 fb ga f (ds_g s1) Hin Hadds).
+    rewrite Hms, Hms0 in Hno. cbn [app List.tl] in Hno. unfold no_file_id in Hno |- *. rewrite forallb_app in Hno.
+    apply andb_prop in Hno. exact (proj1 Hno). }
+  assert (Hhdr : f_header (ds_file s1) = h).
+  { pose proof (pfid_err_file o (mk_ast ((ser_record r1 ++ ser_record r2) ++ ser_records rest ++ tl) t 0 (N.to_nat (h_dsize h))) (init_dstate (new_file h) g)) as _.
+    (* the header of the File is fixed by File.init's result, which route_msgs_header characterises *)
+    assert (Hr : route_msgs h g (hd dummy_msg (ss_msgs ssb) :: ms0) = Some (f, ds_g s1)).
+    { unfold route_msgs. rewrite Hstart, Hadds. reflexivity. }
+    pose proof (route_msgs_header _ _ _ _ _ Hr) as Hf.
+    unfold file_init in Hinit. destruct (ft_entry (file_type (ds_file s1))) as [[[[|] ?] ?]|]; try discriminate.
+    inversion Hinit; subst f. exact Hf. }
+  exists (mk_ares None h (Some (finalize_unknown o s1))
+            (N.to_nat (h_size h) + Nat.min (N.to_nat (h_dsize h)) (List.length ((ser_record r1 ++ ser_record r2 ++ ser_records rest) ++ tl)))
+            (ds_g s1) (ds_quirks s1) false), (finalize_unknown o s1).
+  destruct (finalize_slots o s1) as (S1 & _ & S3 & _).
+  split.
+  { unfold decode_a. rewrite (hdr_a_wf h _ _ Hwfh), (skipn_hdr h _ Hwfh). cbv beta iota zeta.
+    unfold data_prog. rewrite run_bind.
+    replace ((ser_record r1 ++ ser_record r2 ++ ser_records rest) ++ tl) with ((ser_record r1 ++ ser_record r2) ++ ser_records rest ++ tl)
+      by (now rewrite <- !app_assoc).
+    rewrite Hrun. cbn [rbind run_a]. reflexivity. }
+  fields. repeat split; try reflexivity.
+  - rewrite S1. exact Hslot.
+  - rewrite S3. exact Hhdr.
+Qed.
+
+(* fileid_agree: on a file of the domain of Decode_denote whose only file_id message is the leading one, read through
+   any two readers, DecodeHeaderAndFileID and Decode report the same header and the same FileId message *)
+Theorem fileid_agree : forall o g rdD fuelD rdF fuelF h rs ss1 f2 g1 extraD extraF,
+  header_wf h -> h_dsize h = N.of_nat (List.length (ser_records rs)) ->
+  starts_with_file_id rs = true -> stream_wf rs = true -> denote rs = Some ss1 ->
+  start_file h g (hd dummy_msg (ss_msgs ss1)) = Some (f2, g1) ->
+  no_file_id (List.tl (ss_msgs ss1)) = true ->
+  rd_data rdD = fit_file h rs ++ extraD -> wf rdD fuelD ->
+  rd_data rdF = fit_file h rs ++ extraF -> wf rdF fuelF ->
+  exists rD rF fD fF,
+    entry_Decode o g rdD fuelD = TDone rD /\ entry_DecodeHeaderAndFileID g rdF fuelF = TDone rF /\
+    dr_err rD = None /\ dr_err rF = None /\ dr_hdr rD = h /\ dr_hdr rF = h /\
+    dr_file rD = Some fD /\ dr_file rF = Some fF /\
+    nth 0 (f_slots fF) [] = nth 0 (f_slots fD) [] /\ f_header fF = f_header fD.
+Proof.
+  intros o g rdD fuelD rdF fuelF h rs ss1 f2 g1 extraD extraF Hwfh Hsz Hs Hwf Hden Hstart Hno HdD HfD HdF HfF.
+  destruct (Decode_denote o g rdD fuelD h rs ss1 f2 g1 extraD Hwfh Hsz Hs Hwf Hden Hstart HdD HfD)
+    as (rd' & file' & f & g' & q & HD & Hroute & Hslots & _ & Hhdr & _).
+  destruct (fileid_only_ok no_opts h g rs ss1 f2 g1 (put_le16 (file_crc h (ser_records rs)) ++ extraF) (rd_term rdF)
+              Hwfh Hsz Hs Hwf Hden Hstart Hno) as (a & fF & Ha & A1 & A2 & A3 & A4 & A5).
+  assert (HdF' : rd_data rdF = hdr_bytes h ++ ser_records rs ++ put_le16 (file_crc h (ser_records rs)) ++ extraF).
+  { rewrite HdF. unfold fit_file, frame_bytes. now rewrite <- !app_assoc. }
+  rewrite <- HdF' in Ha.
+  destruct (decode_of_a no_opts MFileIdOnly g rdF fuelF a HfF Ha) as (rF & HF & E1 & E2 & E3 & _).
+  exists (mk_dres None h (Some file') rd' g' q), rF, file', fF.
+  split; [exact HD|]. split; [exact HF|]. cbn [dr_err dr_hdr dr_file].
+  split; [reflexivity|]. split; [congruence|]. split; [reflexivity|]. split; [congruence|].
+  split; [reflexivity|]. split; [congruence|]. split; [|congruence].
+  rewrite A4, Hslots.
+  (* the FileId slot of the routed File *)
+  unfold route_msgs in Hroute. destruct (ss_msgs ss1) as [|m0 ms] eqn:Em; [discriminate|]. cbn [hd List.tl] in *.
+  rewrite Hstart in Hroute. destruct (adds f2 g1 ms) as [fx gx|] eqn:Ea; [|discriminate]. injection Hroute as <- <-.
+  unfold start_file in Hstart. destruct (file_add (new_file h) g m0) as [fa ga|]; [|discriminate].
+  destruct (file_init fa) as [fb|] eqn:Ei; [|discriminate]. injection Hstart as <- <-.
+  destruct (file_init_valid _ _ Ei) as [Hft Hin].
+  symmetry. exact (adds_slot0 _ Hft ms fb ga fx gx Hin Ea Hno).
+Qed.
